@@ -4,3 +4,4 @@ pub mod print;
 pub mod prog;
 pub mod mutate;
 pub mod w;
+pub mod small;
